@@ -26,7 +26,7 @@ struct LockState { writer: bool, readers: usize }
 pub struct RawLock { st: SMutex<LockState>, cv: SCondvar }
 
 impl RawLock {
-    pub fn new() -> Self { RawLock { st: SMutex::new(LockState::default()), cv: SCondvar::new() } }
+    pub const fn new() -> Self { RawLock { st: SMutex::new(LockState { writer: false, readers: 0 }), cv: SCondvar::new() } }
     pub fn lock_exclusive(&self) {
         trace("lock_x");
         let mut g = self.st.lock().unwrap_or_else(|e| e.into_inner());
@@ -71,7 +71,7 @@ impl RawLock {
 /// Event: generation counter + condvar. Used for condvars and channel readiness.
 pub struct Event { gen: SMutex<u64>, cv: SCondvar }
 impl Event {
-    pub fn new() -> Self { Event { gen: SMutex::new(0), cv: SCondvar::new() } }
+    pub const fn new() -> Self { Event { gen: SMutex::new(0), cv: SCondvar::new() } }
     pub fn bump(&self) { trace("bump"); let mut g = self.gen.lock().unwrap_or_else(|e| e.into_inner()); *g += 1; drop(g); self.cv.notify_all(); }
     /// Run `check` with the event locked; if it returns None, wait for a bump and retry.
     pub fn wait_until<R>(&self, mut check: impl FnMut() -> Option<R>) -> R {
